@@ -15,6 +15,7 @@ from . import c03_gen as G
 from . import c03_util as U
 from . import c03_corpus as K
 from . import c03_sconn as SC
+from . import c03_sdecl as SD
 
 PID = 'C03'
 DRIVERS = ['sv']
@@ -24,7 +25,7 @@ THEOREMS = ['PV.C03.' + t for t in [
   'commit_in_order', 'singleDriver_sound', 'singleDriver_complete', 'design_fixpoint_unique', 'design_order_independent',
   'settle_is_fixpoint']]
 TRUSTED = [
-  'Model/SV.lean + Model/SVMod.lean: hand-written two-state, unsigned IEEE 1800-2017 semantics of the emitted subset (sizing rules of 11.6/11.8, '
+  'Model/SV.lean + Model/SVMod.lean: hand-written two-state IEEE 1800-2017 semantics of the emitted subset (sizing rules of 11.6, signed / unsigned expression types of 11.8.1-11.8.2 incl. `integer` variables and the sign-preserving size cast of 6.24.1, '
   'blocking / non-blocking assignment, always_comb fixed point by bounded sweeps, always_ff as one clock domain, instances inlined); '
   'NO Verilog simulator exists in this sandbox (Verilator absent), so this semantics cannot be cross-validated here and is part of the trusted base',
   'harness/checks/c03_svparse.py: parser of the emitted subset written from IEEE 1800-2017 Annex A / Table 11-2 ("syntactically valid" means: accepted by it)',
@@ -55,6 +56,26 @@ THEOREM_MODULE = dict(SC.THEOREM_MODULE)
 TRUSTED = TRUSTED + SC.TRUSTED
 ASSUMPTIONS = ASSUMPTIONS + SC.ASSUMPTIONS
 RULE = RULE + '; ' + SC.RULE
+# ---- end
+
+# ---- begin: declarations, instances and operand rendering of the structural translators (Model/SDecl.lean, Props/C03d.lean, harness/checks/c03_sdecl.py)
+DRIVERS = DRIVERS + SD.DRIVERS
+MODULE = MODULE + [SD.MODULE]
+THEOREMS = THEOREMS + SD.THEOREMS
+THEOREM_MODULE.update(SD.THEOREM_MODULE)
+TRUSTED = TRUSTED + SD.TRUSTED
+ASSUMPTIONS = ASSUMPTIONS + SD.ASSUMPTIONS
+RULE = RULE + '; ' + SD.RULE
+# ---- end
+
+# ---- begin: signedness (Model/SV.lean `signedOf` / `evalC`): the SystemVerilog backend emits nothing signed, so the side condition
+#      `signSafe` of the generic theorems is free here
+THEOREMS = THEOREMS + ['PV.C03.' + t for t in ['sv_unsigned', 'signSafe_sv', 'signSafeS_sv', 'expr_correct_sv', 'stmt_sim_sv']]
+ASSUMPTIONS = ASSUMPTIONS + [
+  'expr_correct / ref_correct / rhs_correct / stmt_correct / stmt_sim take `signSafe be e` (no ordering comparison / remainder of two SIGNED operands) as a '
+  'hypothesis: proved for every expression of the SystemVerilog backend (signSafe_sv: `int unsigned` loop variables, nothing emitted is signed), a genuine '
+  'restriction for the Yosys backend only (C12)',
+]
 # ---- end
 
 BE = 'verilog'
@@ -99,10 +120,12 @@ def run(ck):
   ck.extra_cov['pipeline'] = stats
   ck.extra_cov['designs'] = {'corpus': len(corpus), 'finding_streams': len(fd), 'clean': done}
   SC.run(ck)   # last, so that the PRNG streams above do not move: structural hierarchies vs Model/SConn (gen_connections / _gen_metadata)
+  SD.run(ck, BE)   # declarations / instances / operand rendering vs Model/SDecl
 
 def replay(ck, data):
   case = data['case']
   if case and case.get('sconn'): return SC.replay(ck, data)
+  if case and case.get('sdecl'): return SD.replay(ck, data)
   if case is None:
     print('no concrete case recorded (proof / correspondence break without failing input)'); return 1
   if 'src' not in case:
